@@ -371,6 +371,12 @@ def run_check(pid, tier, seed, workers=None, quiet=False):
                 print("stale known finding %s: stored trace no longer reproduces" % e["id"], file=sys.stderr)
 
     minimise_budget = float(os.environ.get("VERIF_MINIMISE_S", 25))
+    if os.environ.get("VERIF_LIST_ONLY") == "1":
+        for k in sorted(by_key):
+            case, sig, _, _ = by_key[k][0]
+            n = sum(1 for f in total.failures for s_ in f["violations"] if sig_key(s_) == k)
+            print("CLASS %s  (n=%d)\n      %s" % (k, n, json.dumps(sig.get("detail"), sort_keys=True)[:400]))
+        return 3
     for k in sorted(by_key):
         case, sig, _, prefix_ops = by_key[k][0]
         open_match = [e for e in findings if e["status"] == "open" and matches(sig, e["match"])]
